@@ -1310,6 +1310,17 @@ class SymEval:
                 return self.lift(getattr(rv, f[2])(*[a[1] for a in args], **{k: v[1] for k, v in kwargs}))
             except Exception:
                 pass
+        if f == ("builtin", "dict") and len(args) == 1 and not kwargs and args[0][0] == "call" and args[0][2] == ("builtin", "zip") and len(args[0][3]) == 2 and not args[0][4]:
+            ks_, vs_ = args[0][3]
+            kitems = tuple(self.lift(x) for x in ks_[1]) if (is_const(ks_) and isinstance(ks_[1], (tuple, list))) else (ks_[1] if ks_[0] in ("tuple", "list") else None)
+            vitems = tuple(self.lift(x) for x in vs_[1]) if (is_const(vs_) and isinstance(vs_[1], (tuple, list))) else (vs_[1] if vs_[0] in ("tuple", "list") else None)
+            if kitems is not None and vitems is not None and len(kitems) == len(vitems):
+                # dict(zip((k1, k2, ...), (v1, v2, ...))) is the display {k1: v1, k2: v2, ...}
+                if self.effects and self.effects[-1].term is args[0]:
+                    self.effects.pop()
+                return ("dict", tuple(kitems), tuple(vitems), self._new_uid())
+        if f == ("builtin", "dict") and not args and kwargs and all(k is not None for k, _ in kwargs):
+            return ("dict", tuple(const(k) for k, _ in kwargs), tuple(v for _, v in kwargs), self._new_uid())  # dict(a=1, b=2)
         if f == ("builtin", "format") and 1 <= len(args) <= 2 and not kwargs and (len(args) == 1 or (is_const(args[1]) and isinstance(args[1][1], str))):
             return _mk_fstr([("fmt", args[0], args[1][1] if len(args) == 2 else "", -1)])  # format(x[, spec]) is f"{x:spec}"
         if f[0] == "attr" and f[2] == "join" and is_const(recv) and isinstance(recv[1], str) and len(args) == 1 and not kwargs and args[0][0] in ("tuple", "list"):
